@@ -266,6 +266,7 @@ macro_rules! delegating {
 delegating!(RefStr(String), [Text, Ascii], |me| me.0.as_str(), &str, |v| as_string(v).map(RefStr), |s, t| text_val(t, s.0.clone()));
 delegating!(CowStr(String), [Text, Ascii], |me| Cow::Borrowed(me.0.as_str()), Cow<'_, str>, |v| as_string(v).map(CowStr), |s, t| text_val(t, s.0.clone()));
 delegating!(BoxStr(String), [Text, Ascii], |me| me.0.clone().into_boxed_str(), Box<str>, |v| as_string(v).map(BoxStr), |s, t| text_val(t, s.0.clone()));
+delegating!(ArcStr(String), [Text, Ascii], |me| Arc::<str>::from(me.0.as_str()), Arc<str>, |v| as_string(v).map(ArcStr), |s, t| text_val(t, s.0.clone()));
 delegating!(RefSlice(Vec<u8>), [Blob], |me| me.0.as_slice(), &[u8], |v| if let CqlValue::Blob(x) = v { Some(RefSlice(x.clone())) } else { None }, |s, _t| CqlValue::Blob(s.0.clone()));
 delegating!(Arr4(Vec<u8>), [Blob], |me| <[u8; 4]>::try_from(me.0.as_slice()).unwrap(), [u8; 4],
     |v| if let CqlValue::Blob(x) = v { if x.len() == 4 { Some(Arr4(x.clone())) } else { None } } else { None }, |s, _t| CqlValue::Blob(s.0.clone()));
@@ -481,6 +482,9 @@ tuple_carrier!(1; A 0);
 tuple_carrier!(2; A 0, B 1);
 tuple_carrier!(3; A 0, B 1, C 2);
 tuple_carrier!(4; A 0, B 1, C 2, D 3);
+tuple_carrier!(5; A 0, B 1, C 2, D 3, E 4);
+tuple_carrier!(8; A 0, B 1, C 2, D 3, E 4, F 5, G 6, H 7);
+tuple_carrier!(16; A 0, B 1, C 2, D 3, E 4, F 5, G 6, H 7, I 8, J 9, K 10, L 11, M 12, N 13, O 14, P 15);
 
 impl Carrier for CqlValue {
     fn gen_type(r: &mut Rng) -> Ty {
@@ -541,8 +545,45 @@ where
     Ok(format!("{} {}", fmt_ser(&ser), de))
 }
 
+/// the carrier's own (borrowing) decoder for the serialize-only wrappers: None = type check refused
+type BorrowedDeser = fn(&Ty, &[u8]) -> Option<Result<Cell, String>>;
+
+macro_rules! borrowed_deser {
+    ($name:ident, $ty:ty, |$x:ident, $t:ident| $conv:expr) => {
+        fn $name(t: &Ty, bytes: &[u8]) -> Option<Result<Cell, String>> {
+            if <$ty as DeserializeValue>::type_check(t).is_err() {
+                return None;
+            }
+            let b = bytes::Bytes::copy_from_slice(bytes);
+            let mut fs = scylla_cql_core::deserialize::FrameSlice::new(&b);
+            let raw = match fs.read_cql_bytes() {
+                Ok(r) => r,
+                Err(_) => return Some(Err("RawCqlBytesRead".into())),
+            };
+            Some(match <$ty as DeserializeValue>::deserialize(t, raw) {
+                Ok($x) => {
+                    let $t = t;
+                    Ok(Cell::Val($conv))
+                }
+                Err(e) => Err(de_leaf(&e)),
+            })
+        }
+    };
+}
+borrowed_deser!(de_ref_str, &str, |x, t| text_val(t, x.to_string()));
+borrowed_deser!(de_cow_str, Cow<'_, str>, |x, t| text_val(t, x.to_string()));
+borrowed_deser!(de_box_str, Box<str>, |x, t| text_val(t, x.to_string()));
+borrowed_deser!(de_arc_str, Arc<str>, |x, t| text_val(t, x.to_string()));
+borrowed_deser!(de_ref_slice, &[u8], |x, _t| CqlValue::Blob(x.to_vec()));
+borrowed_deser!(de_varint_b, CqlVarintBorrowed<'_>, |x, _t| CqlValue::Varint(CqlVarint::from_signed_bytes_be_slice(x.as_signed_bytes_be_slice())));
+borrowed_deser!(de_decimal_b, CqlDecimalBorrowed<'_>, |x, _t| {
+    let (b, sc) = x.as_signed_be_bytes_slice_and_exponent();
+    CqlValue::Decimal(CqlDecimal::from_signed_be_bytes_slice_and_exponent(b, sc))
+});
+
 pub struct Entry {
     pub name: String,
+    pub deser: Option<BorrowedDeser>,
     pub run: fn(&Ty, &Cell) -> Result<String, String>,
     pub gen_type: fn(&mut Rng) -> Ty,
     pub embed: fn(&Ty, &Cell) -> Option<Cell>,
@@ -552,12 +593,12 @@ fn embed_of<C: Carrier>(t: &Ty, c: &Cell) -> Option<Cell> {
 }
 macro_rules! full {
     ($($ty:ty),* $(,)?) => { vec![$(Entry {
-        name: stringify!($ty).replace(' ', ""),
+        name: stringify!($ty).split_whitespace().collect::<String>(), deser: None,
         run: run_full::<$ty>, gen_type: <$ty as Carrier>::gen_type, embed: embed_of::<$ty> }),*] };
 }
 macro_rules! ser_only {
     ($($ty:ty),* $(,)?) => { vec![$(Entry {
-        name: stringify!($ty).replace(' ', ""),
+        name: stringify!($ty).split_whitespace().collect::<String>(), deser: None,
         run: run_ser_only::<$ty>, gen_type: <$ty as Carrier>::gen_type, embed: embed_of::<$ty> }),*] };
 }
 
@@ -569,7 +610,7 @@ pub fn registry() -> Vec<Entry> {
         chrono::NaiveDate, chrono::NaiveTime, chrono::DateTime<chrono::Utc>,
         time::Date, time::Time, time::OffsetDateTime,
         secrecy_08::Secret<String>, secrecy_10::SecretBox<i64>,
-        Option<i32>, Option<String>, Option<f64>, Option<CqlVarint>, Option<Vec<i32>>, Option<CqlValue>,
+        CqlValue, Option<IpAddr>, Option<i32>, Option<String>, Option<f64>, Option<CqlVarint>, Option<Vec<i32>>, Option<CqlValue>,
         MaybeEmpty<i32>, MaybeEmpty<i64>, MaybeEmpty<f32>, MaybeEmpty<bool>, MaybeEmpty<uuid::Uuid>, MaybeEmpty<CqlVarint>,
         MaybeEmpty<CqlDecimal>, MaybeEmpty<IpAddr>, MaybeEmpty<CqlDate>, MaybeEmpty<CqlTimestamp>, Option<MaybeEmpty<i16>>,
         Box<i32>, Box<String>, Arc<i64>, Arc<Vec<String>>, Box<(i32, String)>,
@@ -585,13 +626,21 @@ pub fn registry() -> Vec<Entry> {
         (i32,), (Option<i32>,), (String, i64), (Option<String>, Option<i64>), (i32, Option<Vec<i32>>, String),
         (Option<i8>, Option<f32>, Option<(i32, String)>), (Vec<i32>, BTreeMap<i32, i32>), (i32, i32, i32, Option<String>),
         (CqlValue, Option<CqlValue>),
+        (i32, Option<String>, i64, bool, Option<f64>),
+        (i8, i16, i32, i64, Option<String>, Option<bool>, Vec<i32>, Option<uuid::Uuid>),
+        (Option<i32>, Option<i32>, Option<i32>, Option<i32>, Option<i32>, Option<i32>, Option<i32>, Option<i32>,
+         Option<i64>, Option<i64>, Option<i64>, Option<i64>, Option<String>, Option<String>, Option<bool>, Option<f32>),
     ];
     v.extend(ser_only![
-        RefStr, CowStr, BoxStr, RefSlice, Arr4, VarintB, DecimalB,
+        RefStr, CowStr, BoxStr, ArcStr, RefSlice, Arr4, VarintB, DecimalB,
         RefOf<i32>, RefOf<String>, RefOf<Vec<i64>>, RefOf<Option<f64>>, SliceOf<i32>, SliceOf<String>, SliceOf<Vec<u8>>,
         MaybeUnset<i32>, MaybeUnset<String>, MaybeUnset<Option<i64>>, MaybeUnset<Vec<i32>>, MaybeUnset<CqlValue>,
         Option<MaybeUnset<i32>>,
     ]);
+    for (n, d) in [("RefStr", de_ref_str as BorrowedDeser), ("CowStr", de_cow_str), ("BoxStr", de_box_str), ("ArcStr", de_arc_str),
+                   ("RefSlice", de_ref_slice), ("VarintB", de_varint_b), ("DecimalB", de_decimal_b)] {
+        v.iter_mut().find(|e| e.name == n).unwrap().deser = Some(d);
+    }
     v
 }
 
@@ -602,7 +651,16 @@ thread_local! {
 pub fn run_typed(carrier: &str, t: &Ty, c: &Cell) -> Result<String, String> {
     REG.with(|reg| {
         let e = reg.iter().find(|e| e.name == carrier).ok_or(format!("unknown carrier {}", carrier))?;
-        (e.run)(t, c)
+        let out = (e.run)(t, c)?;
+        // serialize-only wrappers of borrowing carriers: decode through the carrier's own decoder
+        if let (Some(d), Some(hx)) = (e.deser, out.strip_prefix("ok:")) {
+            let hx = hx.split(' ').next().unwrap();
+            let bytes = unhex(hx)?;
+            if let Some(r) = d(t, &bytes) {
+                return Ok(format!("ok:{} {}", hx, fmt_deser(&r)));
+            }
+        }
+        Ok(out)
     })
 }
 
